@@ -28,7 +28,7 @@ def main():
     try:
         pa = common.import_lib()
         mod.run(rep, tier, seed, pa)
-    except Exception as e:  # the correspondence itself broke: not shown to hold
+    except BaseException as e:  # the correspondence itself broke: not shown to hold
         import traceback
         tb = traceback.format_exc()
         rep.violation("harness", {"traceback": tb}, "correspondence run raised %r no-failing-input-found" % (e,))
